@@ -125,7 +125,7 @@ func variant(r *vh.Rng, seed Case) Case {
 	c.Origin = "search"
 	for k := 1 + r.Intn(3); k > 0; k-- {
 		ref, _ := refList(&c, c.Args)
-		switch r.Intn(15) {
+		switch r.Intn(16) {
 		case 0:
 			c.Args.After = moveCursor(r, ref, c.Args.After)
 		case 1:
@@ -284,6 +284,15 @@ func variant(r *vh.Rng, seed Case) Case {
 			}
 			if externallyManaged(&c) && c.Kind != "page" {
 				c.Kind = "page"
+			}
+		case 14: // move every numeric sort value next to a boundary of a narrower / lossy representation
+			nb, ub := int64Bases[r.Intn(len(int64Bases))], uint64Bases[r.Intn(len(uint64Bases))]
+			for i := range c.Items {
+				c.Items[i].N[0] = nb + int64(uint64(c.Items[i].N[0])%7)
+				c.Items[i].U = ub + c.Items[i].U%7
+				for k := int(c.Items[i].U % 3); k > 0; k-- {
+					c.Items[i].F = math.Nextafter(c.Items[i].F, math.Inf(1))
+				}
 			}
 		default: // text attribute edit: copy the filter text's first token into an element, in another case
 			if len(c.Items) > 0 && c.Args.FilterText != nil {
